@@ -100,7 +100,7 @@ func pushdownAllowed(opts *Opts, query *sql.Query) (bool, error) {
 	}
 
 	if query.FromSubQuery != nil {
-		if len(query.FromSubQuery.OrderBy) > 0 || query.FromSubQuery.Crosstab != nil || query.FromSubQuery.Limit > 0 || query.FromSubQuery.Offset > 0 {
+		if len(query.FromSubQuery.OrderBy) > 0 || query.FromSubQuery.Crosstab != nil || query.FromSubQuery.Limit > 0 || query.FromSubQuery.HasLimit || query.FromSubQuery.Offset > 0 {
 			// If subquery contains order by, crosstab, limit or offset, we can't push down
 			log.Debugf("Pushdown not allowed because subquery contains disallowed clause: %v", query.FromSubQuery.SQL)
 			return false, nil
